@@ -225,7 +225,8 @@ def c031_version(ctx):
         for pt in P.call_points(lz, r"^lsmtk::SST_FILE$"):
             srcs = P.origins(lz, P.term_at(lz, pt)["args"][1])
             own = any(s_["k"] == "param" and "setsum::Setsum" in lz.locals[s_["i"]] for s_ in srcs) or \
-                any(s_["k"] == "upvar" or (s_["k"] == "field" and "closure" in s_.get("owner", "")) for s_ in srcs)
+                any(s_["k"] == "upvar" or (s_["k"] == "field" and "closure" in s_.get("owner", "")) for s_ in srcs) or \
+                ("{closure" in lz.key and any(s_["k"] == "param" and s_["i"] == 1 for s_ in srcs))      # a captured setsum (the closure's environment)
             ctx.check(R, lz, "opens-own-file", own, "the opener builds SST_FILE(root, setsum) from the setsum it is given",
                       "the lazy opener builds the path of a different file", pt=pt)
 
